@@ -22,9 +22,11 @@ pub fn web(arg: &str) -> (bool, String) {
             }
             let aligned = d == host || (host.len() > d.len() && host.ends_with(d) && host.as_bytes()[host.len() - d.len() - 1] == b'.');
             if !aligned { return (true, format!("RP ID {d} accepted for host {host}: not equal and not a label-aligned suffix")); }
-            if d == "localhost" {
-                return (!allow, format!("localhost accepted (allowed={allow})"));
+            // the only exception C01 states: the literal host "localhost", explicitly enabled
+            if host == "localhost" && d == host && allow {
+                return (false, "literal host localhost accepted with insecure localhost enabled".into());
             }
+            if d == "localhost" && !allow { return (true, "localhost accepted although insecure localhost is not enabled".into()); }
             if !url.scheme().eq_ignore_ascii_case("https") { return (true, format!("accepted over scheme {}", url.scheme())); }
             let ascii = match idna::domain_to_ascii(d) { Ok(a) => a, Err(_) => return (true, format!("RP ID {d} has no ASCII form but was accepted")) };
             if DEFAULT_PROVIDER.effective_tld_plus_one(&ascii).is_err() {
